@@ -475,7 +475,7 @@ func (ex *exec) evalComposite(st *State, e *ast.CompositeLit) Value {
 
 func (ex *exec) compositeArray(st *State, e *ast.CompositeLit, elem types.Type, n int64) Value {
 	info := ex.info()
-	scalar := ex.scalarSort(elem) != nil
+	scalar := ex.scalarSort(elem) != nil && !(ex.mode == ModeInt && n <= smallArray)
 	var arrT *Term
 	var arrV *Array
 	if scalar {
